@@ -432,6 +432,8 @@ from . import mustcall
 from . import vocab
 
 
+from . import inventory
+
 OBLIGATIONS = [
     ('C14.O1', 'totality of decode', 'no open panic-capable site and no unreviewed external callee in the call-graph closure of '
      'compression::decode; every site is discharged by analysis (no review entries): every byte string yields Ok or Err.', o1),
@@ -447,4 +449,5 @@ OBLIGATIONS = [
     ('C14.C', 'lossy integer casts', 'every sign-changing cast (signed -> unsigned; NULL_FRAME is -1) and every narrowing cast to < 32 bits or from 128 bits in the crate is in range by a dominating guard, by the shape of its operand, or listed with a reason in tables/casts.json; see rules/casts.py', casts.rule),
     ('C14.M', 'must-call floor', 'the calls listed for this property in tables/must_call.json are made on every path from the entry of their function to a normal return (interprocedural must-call): a new early return, fast path or extra condition in front of one of them is reported; see rules/mustcall.py', mustcall.rule_for('C14')),
     ('C14.V', 'no unreviewed condition in the pinned helpers', 'for each helper whose body this property\'s rules pin (tables/condition_terms.json), the terms its path conditions are built from (fields, parameters, call results -- no constants, operators or local names) are a subset of the reviewed vocabulary: one more `if` in front of a pinned result (a lock that may time out, "only while an endpoint is running") is reported; see rules/vocab.py', vocab.rule_for('C14')),
+    ('C14.K', 'call inventory', 'every reviewed call of a function that writes state (tables/call_edges.json, callers in the structs this property\'s rules read) is still made, directly or through helpers: a call deleted as redundant is reported; see rules/inventory.py', inventory.call_rule_for('C14')),
 ]
